@@ -923,3 +923,48 @@ pub fn gen_rot(seed: u64, count: usize) -> Vec<String> {
     }
     out
 }
+
+// ---------------------------------------------------------------------------------
+// NEST: loops whose body contains an unbalanced (pointer-moving) inner loop followed by
+// more loops and I/O at offsets that now name different cells - the situations in which
+// facts about the enclosing loop's condition must be forgotten.
+
+pub fn gen_nest(seed: u64, count: usize) -> Vec<String> {
+    let mut r = Rng::new(seed ^ 0x4E57);
+    let mut out = Vec::new();
+    let mut tries = 0;
+    let movers = [">[>>]<", ">[>]<", "<[<]>", "[>>]", ">>[<<]", ">[>]", "[<]", ">[>>]<<", ">>[>]<<", "<[<<]>"];
+    let at0 = ["[.[-]]", "[-]", "[.-]", "[[-]+]", "[->+<]", "[.[-]]", "[>+<[-]]", "[,.[-]]", "[-.]"];
+    let other = [">[.[-]]<", "<[.[-]]>", ">[-]<", ">+<", ">-<", ">.<", "<.>", ">,<"];
+    let ops = ["+", "-", ".", ",", "--", "++"];
+    let prefixes = ["+>+<", ",>,<", "+>>+<<", ">>+<<,", "+", ",", "+>+>+<<", ">+<+"];
+    let suffixes = ["++++++++[>++++++++<-]>+.", ".>.<", ".", ">.>.", "+.>+.", ""];
+    while out.len() < count && tries < count * 10 {
+        tries += 1;
+        let mut s = String::new();
+        s.push_str(*r.pick(&prefixes));
+        s.push('[');
+        let n = 2 + r.below(3);
+        let mut moved = false;
+        for i in 0..n {
+            let c = r.below(10);
+            if (c < 3 && !moved) || (i == 0 && r.below(2) == 0) {
+                s.push_str(*r.pick(&movers));
+                moved = true;
+            } else if c < 6 {
+                s.push_str(*r.pick(&at0));
+            } else if c < 8 {
+                s.push_str(*r.pick(&other));
+            } else {
+                s.push_str(*r.pick(&ops));
+            }
+        }
+        s.push_str(*r.pick(&["", "", "[-]", "-", "<"]));
+        s.push(']');
+        s.push_str(*r.pick(&suffixes));
+        if balanced(&s) && s.len() <= 70 && !out.contains(&s) {
+            out.push(s);
+        }
+    }
+    out
+}
